@@ -189,10 +189,24 @@ func runC12(c *core.Ctx) {
 			for i := range cl {
 				cl[i] = -6
 			}
+			cl = append(cl, -77, -78, -79) // growing the clone must not spill into the original's spare capacity
 			if !eqSlice(b, bs) {
 				fail("Clone:shares-memory", "mutating the clone changed the original", nil)
 				return false
 			}
+			for i, v := range b[:cap(b)][len(b):] {
+				if v != sentinel-(len(b)+i) {
+					fail("Clone:shares-capacity", fmt.Sprintf("appending to Clone(len=%d cap=%d) wrote into the original's spare capacity", len(b), cap(b)), nil)
+					return false
+				}
+			}
+			ec := slices.Clone(a[:0])
+			ec = append(ec, -81)
+			if len(a) > 0 && a[:1][0] == -81 {
+				fail("Clone:shares-capacity", "appending to the clone of an emptied slice (s[:0]) overwrote the original's backing array", nil)
+				return false
+			}
+			_ = ec
 			for i := range b {
 				b[i] = -8
 			}
